@@ -30,8 +30,8 @@ CONSTANTS NSet,        \* numbers of support points
           Conts,       \* containers of the support data
           Routes,      \* serialisation routes
           MaxSer,      \* serialisations per history
-          SerMaxN,     \* histories with serialisation are explored for data with at most this many points
-          FullMaxN     \* container / first-abscissa variants are explored for data with at most this many points
+          SerMaxN,     \* histories are explored for canonical data shapes with at most this many points (HistoryShape)
+          FullMaxN     \* containers / first abscissae / all spacings are explored for data with at most this many points
 VARIABLES cfg, ops, cache
 vars == <<cfg, ops, cache>>
 
@@ -40,11 +40,21 @@ KindOptions ==
   \cup {<<c, ik, f>> : c \in {"spline", "log"}, ik \in Interp \ {"pchip"}, f \in {"extrapolate", "ends"}}
   \cup {<<c, "pchip", f>> : c \in {"spline", "log"}, f \in (IF "pchip" \in Interp THEN {"extrapolate", "noextrap"} ELSE {})}
 
-\* the log variant documents "zero-values not supported" (characteristic.py:210-217) and log10 needs positive data
-\* (and, to bound the thorough configuration, data with more than FullMaxN points use one container and x1 = 1)
+\* spacing / ordinate patterns used to bound the configuration
+MinDX == CHOOSE d \in DXSet : \A e \in DXSet : d <= e
+MaxDX == CHOOSE d \in DXSet : \A e \in DXSet : d >= e
+Uniform(dx) == \A k \in 1..Len(dx) : dx[k] = MinDX
+Alternating(dx) == \A k \in 1..Len(dx) : dx[k] = (IF k % 2 = 1 THEN MinDX ELSE MaxDX)
+AllUp(dy) == \A k \in 1..Len(dy) : dy[k] = 1
+ZigZag(dy) == \A k \in 1..Len(dy) : dy[k] = (IF k % 2 = 1 THEN 1 ELSE 0 - 1)
+\* the log variant documents "zero-values not supported" (characteristic.py:210-217) and log10 needs positive data;
+\* to bound the configuration, data with more than FullMaxN points use one container, x1 = 1 and two spacing patterns
+\* (equidistant, alternating narrow / wide) — every y pattern is still explored
 WellFormed(c) == /\ c.cls = "log" => c.x1 > 0
-                 /\ Len(c.dx) + 1 > FullMaxN => (c.cont = "list" /\ c.x1 = 1)
-
+                 /\ Len(c.dx) + 1 > FullMaxN => (c.cont = "list" /\ c.x1 = 1 /\ (Uniform(c.dx) \/ Alternating(c.dx)))
+\* histories (calls before / serialisation routes) are explored on two canonical data shapes per number of points:
+\* equidistant x with increasing y (monotone: all clauses apply) and with zig-zag y
+HistoryShape(c) == Len(c.dx) + 1 <= SerMaxN /\ Uniform(c.dx) /\ (AllUp(c.dy) \/ ZigZag(c.dy))
 ConfigsOf(n, ko) == {c \in [cls : {ko[1]}, ik : {ko[2]}, fill : {ko[3]}, cont : Conts, x1 : {x - 2 : x \in X1Set},
                               dx : [1..(n - 1) -> DXSet], dy : [1..(n - 1) -> {d - 1 : d \in DYSet}]] : WellFormed(c)}
 Configs == UNION {ConfigsOf(n, ko) : n \in NSet, ko \in KindOptions}
@@ -63,12 +73,13 @@ Init == cfg \in Configs /\ ops = <<>> /\ cache = FALSE
 \* the object is called once before anything else happens to it (characteristic.py:181-192 -> :171-178)
 Eval == /\ ops = <<>>
         /\ Supported(cfg)
+        /\ HistoryShape(cfg)
         /\ ops' = <<"E">>
         /\ cache' = CacheAfter(cfg.cls, cache, "E")
         /\ UNCHANGED cfg
 \* the net holding the object is serialised and restored through route r
 Ser(r) == /\ NSer(ops) < MaxSer
-          /\ N(cfg) <= SerMaxN
+          /\ HistoryShape(cfg)
           /\ ops' = Append(ops, r)
           /\ cache' = CacheAfter(cfg.cls, cache, r)
           /\ UNCHANGED cfg
